@@ -97,6 +97,38 @@ def pipe_term(p):
     return "KPipe %s %s %s" % (nlist(p["writes"]), nlist(reads), nlist(p["chunks"]))
 
 
+def rle_list(xs):
+    """a list of N as runs: (rep a n ++ [b] ++ ...)"""
+    parts, i = [], 0
+    while i < len(xs):
+        j = i
+        while j < len(xs) and xs[j] == xs[i]:
+            j += 1
+        parts.append("rep %d %d" % (xs[i], j - i) if j - i > 3 else "[" + ";".join(str(x) for x in xs[i:j]) + "]")
+        i = j
+    if not parts:
+        return "[]"
+    return "(" + " ++ ".join(parts) + ")%list"
+
+
+def stage_hello(hello):
+    """a padded synthetic hello: literal bytes with the long zero run of the padding as rep"""
+    parts, i, lit, n = [], 0, 0, len(hello)
+    while i < n:
+        j = i
+        while j < n and hello[j] == hello[i]:
+            j += 1
+        if j - i >= 64:
+            if i > lit:
+                parts.append(nlist(list(hello[lit:i])))
+            parts.append("rep %d %d" % (hello[i], j - i))
+            lit = j
+        i = j
+    if n > lit:
+        parts.append(nlist(list(hello[lit:n])))
+    return " ++ ".join(parts)
+
+
 def to_coq(c):
     s = c["stream"]
     if c.get("crash"):
@@ -118,6 +150,17 @@ def to_coq(c):
         if not w or w.get("err", "").startswith("setup:"):
             return None
         return "KWriteFail %s %s %s" % (nlist(w["sizes"]), nlist(w["ns"]), cbool(w["failed"]))
+    if s == "stage":
+        g = c["stage"]
+        hello = bytes.fromhex(g["hello"])
+        inp = "(%s ++ rep 0 %d)%%list" % (nlist(list(hello)) if len(hello) <= 400 else stage_hello(hello), g["trail"])
+        runs = []
+        for r in g["runs"]:
+            if len(r["chunks"]) > 3000:
+                continue                      # byte-sized buffers on a long stream: oracle only
+            ended = 1 if r["ended"] == "eof" else 7
+            runs.append("(%d, %s, %d)" % (r["m"], rle_list(r["chunks"]), ended))
+        return "KStage %s %s [%s]" % (inp, nlist(g["sched"]), "; ".join(runs))
     if s == "e2e":
         e = c["e2e"]
         if e.get("skipped"):
@@ -184,6 +227,21 @@ def impl_oracle(c):
                     "data: %s" % (p["len"], p["cap"], p["n"], p["view_ok"]))
         if p["len"] > p["cap"] and p["n"] >= 0:
             return ("tunnel-read-overrun", "a read reply of %d bytes was accepted into a %d-byte buffer" % (p["len"], p["cap"]))
+    elif s == "stage":
+        g = c["stage"]
+        if g["name"] != "stage.example":
+            return ("stage-name", "TLSHelloConn alone: HelloInfo reported %r for a hello of %d bytes naming stage.example"
+                    % (g["name"], g["hello_len"]))
+        bad = [r for r in g["runs"] if not r["ok"] or r["ended"] != "eof"]
+        if bad:
+            r = min(bad, key=lambda r: r["m"])
+            what = ("not a prefix of the bytes sent, first difference at offset %d" % r["first_diff"]
+                    if r["first_diff"] >= 0 else "%d of %d bytes" % (r["total"], g["hello_len"] + g["trail"]))
+            return ("stage-lost", "TLSHelloConn alone: a hello of %d bytes with %d byte(s) behind it, delivered as: %s; "
+                    "HelloInfo, then Reads with a %d-byte buffer returned %s and ended with %s: %s (%d of the %d buffer "
+                    "sizes tried fail; smallest shown)"
+                    % (g["hello_len"], g["trail"], g["seg_desc"], r["m"], r["chunks"][:10], r["ended"], what,
+                       len(bad), len(g["runs"])))
     elif s == "e2e":
         e = c["e2e"]
         if e.get("skipped"):
